@@ -17,6 +17,10 @@ SNIPPETS = [
     "q = 'select * from t where a=%s' % y\n", "try:\n    pass\nexcept Exception:\n    pass\n",
     "assert x  # nosec\n", "assert x  # nosec B101\n", "assert x  # nosec B999\n", "exec('x')  # nosec B101\n",
     "s = '''\n# not a comment\n\n'''\n", "import telnetlib  # nosec\n", "def f(password='p'):\n    pass\n",
+    # several findings withheld by one comment on one line
+    "import subprocess\nsubprocess.Popen('ls *', shell=True)  # nosec\n", "assert pickle.loads(x)  # nosec\n",
+    "import subprocess\nsubprocess.Popen('ls *', shell=True)  # nosec B602, B607\n", "assert pickle.loads(x), exec(y)  # nosec B101,B301\n",
+    "import subprocess\nsubprocess.call('ls',\n    shell=True)  # nosec\n",
 ]
 
 
